@@ -480,9 +480,13 @@ PROPS["C36"] = {
              "NameAcquired/NameLost sent by another peer straight to the connection, unrelated driver signals; the bus answers 1/2/3 by "
              "PRNG for names it does not hold for the connection and 4/2 for those it does; every request/release result is compared "
              "with what the bus holds at that moment, and a successful release must have reached the bus; 11 directed histories first; "
+             "class real-daemon (not under Miri): 420 (12000 thorough) histories of 5..20 steps on a PRIVATE dbus-daemon 1.14 with a second library connection "
+             "as the other process (requests with all flag subsets, releases), ground truth = the daemon's ListQueuedOwners read over an observer "
+             "connection before and after every step, request answers must be the one consistent with (before, after), releases must be true iff held and leave nothing; "
              "distinct = distinct (history, schedule)"),
     "gates": {"quick": {"evaluations": 2500, "distinct": 2000, "requests_checked": 10000, "releases_checked": 6000, "class:forged-signal": 4000,
-                        "class:driver-NameLost": 700, "class:driver-NameAcquired": 400, "class:request-answered-locally": 3000},
+                        "class:driver-NameLost": 700, "class:driver-NameAcquired": 400, "class:request-answered-locally": 3000,
+                        "class:real-daemon": 400, "real_requests_checked": 1200, "real_releases_checked": 700, "class:real-replaced-and-requeued": 40},
               "thorough": {"evaluations": 100000, "distinct": 80000}},
     "assumptions": ["the scripted bus follows dbus-daemon's rules: NameAcquired precedes the reply that grants a name, a replaced owner is re-queued unless it asked DoNotQueue, a repeated RequestName updates the remembered flags",
                     "operations are issued at quiescent points (results of requests racing with ownership signals are ambiguous and not generated)"],
@@ -498,10 +502,16 @@ PROPS["C37"] = {
              "registered twice, no RemoveMatch of an unregistered rule, registered set == the connection's subscription table (cfg hook, "
              "no zero-count entries), the harness's rules registered exactly while a handle lives with count == handles, nothing "
              "registered once every handle is gone (always reached at the end); then the bus changes name owners and routes 0..6 signals "
-             "according to the REGISTERED rules, and every live handle must receive exactly the signals it is entitled to; distinct = "
-             "distinct (ops, schedule)"),
+             "according to the REGISTERED rules, and every live handle must receive exactly the signals it is entitled to; "
+             "class real-daemon (not under Miri): 420 (12000 thorough) histories of 3..9 rounds on a PRIVATE dbus-daemon 1.14 (message streams over 4 rules, clones, "
+             "proxies to a unique / an owned / an unowned well-known name each with 1 signal stream or 2 created concurrently, sync Drop and async_drop), "
+             "ground truth = the daemon's own Debug.Stats.GetAllMatchRules for the connection read over an observer connection: it must converge (polled, 45 s "
+             "allowance) to the connection's subscription table with no rule twice, live stream rules present with count == independently created live streams, "
+             "rules of dropped streams gone, nothing left once every handle is gone; distinct = distinct (ops, schedule)"),
     "gates": {"quick": {"evaluations": 2400, "distinct": 2000, "quiescent_points_checked": 12000, "add_match_calls": 8000, "remove_match_calls": 8000,
-                        "live_handle_rounds_checked": 25000, "signals_expected_at_handles": 10000, "class:handle-signal-stream": 2000, "class:point-with-no-handles": 2500},
+                        "live_handle_rounds_checked": 25000, "signals_expected_at_handles": 10000, "class:handle-signal-stream": 2000, "class:point-with-no-handles": 2500,
+                        "class:real-daemon": 400, "real_quiescent_points_checked": 2000, "real_signal_streams_created": 1500, "real_streams_created": 1000,
+                        "class:real-point-with-no-handles": 400},
               "thorough": {"evaluations": 100000, "distinct": 80000}},
     "assumptions": ["the scripted bus compares rules as parsed values (reference parser) and resolves well-known sender names with its owner table, as dbus-daemon does",
                     "creations and drops of a round run concurrently; signals are sent at quiescent points (delivery racing with subscription changes is C20's subject)"],
